@@ -10,3 +10,31 @@ pub const KF_C01_MT942_EARLY_13D_REORDERED: bool = false;
 pub const KF_C02_MT942_EARLY_13D_NOT_COVERED: bool = true;
 #[cfg(not(kani))]
 pub const KF_C02_MT942_EARLY_13D_NOT_COVERED: bool = false;
+#[cfg(kani)]
+pub const KF_C04_MT101_D60: bool = true;
+#[cfg(not(kani))]
+pub const KF_C04_MT101_D60: bool = false;
+#[cfg(kani)]
+pub const KF_C04_MT101_E54: bool = true;
+#[cfg(not(kani))]
+pub const KF_C04_MT101_E54: bool = false;
+#[cfg(kani)]
+pub const KF_C04_MT104_D21: bool = true;
+#[cfg(not(kani))]
+pub const KF_C04_MT104_D21: bool = false;
+#[cfg(kani)]
+pub const KF_C04_MT107_D21: bool = true;
+#[cfg(not(kani))]
+pub const KF_C04_MT107_D21: bool = false;
+#[cfg(kani)]
+pub const KF_C04_MT107_C01: bool = true;
+#[cfg(not(kani))]
+pub const KF_C04_MT107_C01: bool = false;
+#[cfg(kani)]
+pub const KF_C04_MT107_C02: bool = true;
+#[cfg(not(kani))]
+pub const KF_C04_MT107_C02: bool = false;
+#[cfg(kani)]
+pub const KF_C04_MT204_C01: bool = true;
+#[cfg(not(kani))]
+pub const KF_C04_MT204_C01: bool = false;
